@@ -178,7 +178,7 @@ def case_st(draw):
             others.append(o)
         p = {"others": others, "align": align, "keys": draw(st.sampled_from([None, "str", "dict", "dict-int"])) if op == "stack_ds" else None, "sort": draw(st.booleans()) if align else False,
              "reorder": draw(st.booleans())}        # the later datasets hold the same variables, inserted in another order
-    pre = draw(st.sampled_from(["none", "none", "warm", "derive-take", "derive-reindex", "derive-take", "derive-sort"]))
+    pre = draw(st.sampled_from(["none", "none", "warm", "derive-take", "derive-reindex", "derive-take", "derive-sort", "reinsert-first", "rename-first-key"]))
     if op == "ds-ds" and p.get("layout"):
         pre = "warm" if pre != "none" else "none"
     perm = list(draw(st.permutations(list(range(len(labs))))))
@@ -274,6 +274,18 @@ def enumerate_cases(tier):
                 yield "ds-ds-variable-sets-grid", {"op": "ds-ds", "ds": {"vars": vs, "attrs": dict(DS_ATTRS)}, "dsdims": ["x", "y"], "dim": "x",
                                                    "p": {"sym": sym, "other_labels": {}, "layout": {}, "drop2": [vs[i][0] for i in range(3) if mask & (1 << i)], "extra2": extra}}
 
+    # ... where a common variable has a dimension in one dataset only (it is broadcast) while in the other dataset that dimension belongs
+    # to a variable that is NOT common and carries other labels: each common variable is combined with its namesake alone
+    V = lambda name, dims_, labs, base: [name, {"dims": dims_, "labels": labs, "vk": "f", "base": base, "attrs": {}}]
+    pairs = [([V("k", ["x"], [[3, 1, 2]], 0), V("m", ["y"], [["u", "v"]], 20)], [V("k", ["x", "y"], [[3, 1, 2], ["v", "w"]], 40)]),
+             ([V("k", ["x", "y"], [[3, 1, 2], ["v", "w"]], 40)], [V("k", ["x"], [[3, 1, 2]], 0), V("m", ["y"], [["u", "v"]], 20)]),
+             ([V("k", ["x"], [[3, 1]], 0), V("m", ["y"], [[1, 2]], 20), V("n", ["z"], [[0.5]], 30)], [V("n", ["z"], [[0.5]], 60), V("k", ["y", "x"], [[2, 3], [3, 1]], 40)]),
+             ([V("k", ["x"], [[3, 1]], 0), V("m", ["x", "y"], [[3, 1], [1, 2]], 20)], [V("k", ["x"], [[1, 5]], 40), V("q", ["y"], [[7, 8, 9]], 70)])]
+    for v1, v2 in pairs:
+        for sym in ("+", "-", "*"):
+            yield "ds-ds-variable-sets-grid", {"op": "ds-ds", "ds": {"vars": v1, "attrs": dict(DS_ATTRS)}, "dsdims": ["x"], "dim": "x",
+                                               "p": {"sym": sym, "other_labels": {}, "layout": {}, "ds2": {"vars": v2, "attrs": {}}}}
+
 
 # ----------------------------------------------------------------------------------------------
 
@@ -352,6 +364,17 @@ def run_case(case):
             ds = lib(lambda: ds.reindex_axis(ds.axes[d].values[perm].copy(), axis=d), what="pre-history reindex_axis(permuted own labels)", sig={"op": "pre"})
         elif pre == "derive-sort":
             ds = lib(lambda: ds.sort_axis(axis=d), what="pre-history sort_axis", sig={"op": "pre"})
+    if pre in ("reinsert-first", "rename-first-key") and len(ds.keys()) >= 1 and op not in ("stack_ds", "concatenate_ds", "ds-ds"):
+        # in-place changes of the dataset itself before the operation: the first variable is taken out and put back (it is the last one
+        # then, and the axes only it had are re-created at the end), or its key is renamed in place
+        k0 = list(ds.keys())[0]
+        if pre == "reinsert-first":
+            v0 = ds[k0]
+            lib(lambda: ds.__delitem__(k0), what="pre-history del ds[first]", sig={"op": "pre"})
+            lib(lambda: ds.__setitem__(k0, v0), what="pre-history ds[first] = same array", sig={"op": "pre"})
+        else:
+            lib(lambda: ds.rename_keys({k0: k0 + "_r"}, inplace=True), what="pre-history rename_keys in place", sig={"op": "pre"})
+        core.check_shared_axes(ds, "dataset after the pre-history", {"op": "pre"})
     snap = core.snapshot_dataset(ds)
 
     class _Fresh(object):
@@ -483,6 +506,10 @@ def run_case(case):
         ds2 = core.build_dataset(relabel(case["ds"], p["other_labels"], p.get("layout"), dlab))
         if p.get("layout"):
             cl.add("ds-ds:layout-differs")
+        if "ds2" in p:
+            ds2 = core.build_dataset(p["ds2"])
+            keys = [k for k in keys if k in ds2.keys()]
+            cl.add("ds-ds:variable-sets-differ")
         if "drop2" in p:
             sp2 = relabel(case["ds"], p["other_labels"], p.get("layout"), dlab)
             sp2["vars"] = [[n, vs] for n, vs in sp2["vars"] if n not in p["drop2"]]
